@@ -32,7 +32,7 @@ impl Prop for C02 {
          Among big-endian buckets with identical name lists the order is read from the produced table (any fixed tie-break is accepted, interpretation 3). (b) determinism: the same content built in >= 4 \
          different call orders (fresh archives = fresh hash states, one of them on another thread), each serialized twice, must give one byte string; per-case output digests are also compared \
          between the worker processes of the two builds. (c) byte stability: serialize(from_bytes(x)) == x. (d) a conforming non-canonical layout of the same content (reference writer) parsed and \
-         re-serialized gives the canonical bytes. Thin slices use large archives (up to 24 000 bytes / 1 200 cells / 500 labels; thorough 120 000 / 20 000 / 3 000) and strings of up to 36 KiB; the string pool holds proper endings and beginnings of other pool strings. Non-trivial: >= 2 string cells or >= 2 labels. Distinct = distinct case value."
+         re-serialized gives the canonical bytes. Thin slices use large archives (up to 24 000 bytes / 1 200 cells / 500 labels; thorough 120 000 / 20 000 / 3 000) and strings of up to 36 KiB; the string pool holds proper endings and beginnings of other pool strings. One case in three is preceded, on the same thread, by a serialization of the same content plus one unencodable string (fails part-way; outcome ignored): the bytes must not depend on it. Non-trivial: >= 2 string cells or >= 2 labels. Distinct = distinct case value."
             .into()
     }
     fn assumptions() -> Vec<String> {
@@ -112,6 +112,11 @@ impl Prop for C02 {
         }
         let mut outputs: Vec<Vec<u8>> = Vec::new();
         let mut distinct_orders = 0;
+        // "whatever the call history": one case in three is preceded, on this thread, by a serialization that fails part-way
+        let prior_failure = case.layout_seed % 3 == 0;
+        if prior_failure {
+            super::prior::failing_bin_serialize(c, case.layout_seed);
+        }
         for (i, seed) in case.order_seeds.iter().enumerate() {
             let one = || -> Result<(Vec<u8>, Vec<u8>), String> {
                 let a = build(c, *seed, i % 2 == 1).map_err(|e| format!("build: {}", e.0))?;
@@ -218,6 +223,7 @@ impl Prop for C02 {
             cx.nontrivial();
         }
         cx.label_if(c.big_endian, "big-endian");
+        cx.label_if(prior_failure, "after-a-failed-serialize-on-this-thread");
         let lists: Vec<&Vec<String>> = c.labels.values().collect();
         let tie = lists.iter().enumerate().any(|(i, l)| lists[..i].contains(l));
         cx.label_if(tie, "equal-name-lists-on-several-addresses");
